@@ -285,6 +285,9 @@ Proof. intros H. induction k as [|k IH]; [exact H|]. cbn [xpow iter_n]. apply xt
 Lemma xpow_0 k : xpow k 0 = 0.
 Proof. apply linear_0, xpow_linear. Qed.
 
+Lemma xpow_S k r : xpow (S k) r = xtimes (xpow k r).
+Proof. reflexivity. Qed.
+
 Lemma xpow_succ_r k r : xpow (S k) r = xpow k (xtimes r).
 Proof. unfold xpow. cbn [iter_n]. symmetry. apply iter_comm. Qed.
 
@@ -371,10 +374,11 @@ Lemma horner_shift32 bits : forall R S,
   N.lxor (xpow 32 (fold_left (pstep P) bits R)) (xpow (length bits) S) =
   fold_left astep bits (N.lxor (xpow 32 R) S).
 Proof.
-  induction bits as [|b l IH]; intros R S; [reflexivity|].
-  cbn [fold_left length]. rewrite xpow_succ_r, IH. f_equal.
+  induction bits as [|b l IH]; intros R S.
+  { cbn [fold_left length]. change (xpow 0 S) with S. reflexivity. }
+  cbn [fold_left length]. rewrite (xpow_succ_r (length l)), IH. f_equal.
   unfold astep. rewrite pstep_lin, (xpow_linear 32), xpow_b2n, xtimes_linear.
-  change (xpow 32 (xtimes R)) with (xpow 33 R). change (xtimes (xpow 32 R)) with (xpow 33 R).
+  rewrite <- (xpow_S 32 R), <- (xpow_succ_r 32 R).
   xor_solve.
 Qed.
 
